@@ -40,8 +40,10 @@ def ipOk : CVal → Bool
 
 def appsOk : CVal → Bool
   | .apps es _ => es.all fun e => (e.keys.any fun k => k == "vendor_id" || k == "app_id") && e.allBytes
-  | .none => true                                   -- falsy: `if value:` skips the checks
-  | _ => false
+  | .none => true                                   -- falsy values: `if value:` skips the checks
+  | .str s => s.isEmpty
+  | .int n => n == 0
+  | .other _ => false                               -- a truthy value that is not a list of dictionaries
 
 /-- validation of one item -/
 def validKV (k : String) (v : CVal) : Bool :=
